@@ -16,7 +16,8 @@ Variable kids : xml -> list kid.
 Variable mime : bytes -> mtype.
 Variable mime_bytes : mtype -> bytes.
 Variable rdf0 : bytes.
-Variable mask : xml -> xml.
+Variable proj : Type.
+Variable mask : xml -> proj.
 Hypothesis par_ser : forall x, par (ser x) = x.
 Notation document := (document xml bytes).
 Notation fsys := (fsys bytes kid).
@@ -25,7 +26,7 @@ Notation dX := (dX xml bytes kid par).
 Notation WFd := (WFd xml bytes kid).
 Notation FsOK := (FsOK bytes kid).
 Notation SInv := (SInv xml bytes kid).
-Notation view := (view xml bytes kid par mask).
+Notation view := (view xml bytes kid par proj mask).
 Notation d_clone := (d_clone xml bytes kid ser par FIXED).
 Notation step := (step xml bytes kid ser par pretty stamp entries with_entries kids mime mime_bytes rdf0 FIXED).
 
